@@ -24,6 +24,7 @@ type GenOpts struct {
 	LeafLists   bool     // generate leaf-lists
 	ConfigMix   bool     // mark some sub-trees config false
 	ChoiceHeavy bool     // about half of the non-leaf definitions are choices
+	SingleKey   bool     // lists have exactly one key
 	Types       []string // leaf type pool (YANG type statements without the trailing ;), nil = DefaultTypes
 	KeyTypes    []string // key leaf type pool, nil = DefaultKeyTypes
 	ModuleName  string
@@ -110,7 +111,7 @@ func (g *schemaGen) kids(depth int, inCase bool) []*gnode {
 		case roll < 8 && g.o.Lists:
 			l := &gnode{kind: "list", name: g.id("q")}
 			nk := 1
-			if g.r.Chance(1, 4) {
+			if !g.o.SingleKey && g.r.Chance(1, 4) {
 				nk = 2
 			}
 			kt := g.o.KeyTypes
